@@ -117,13 +117,39 @@ def run(rep, tier):
             mod = irload.load(lib)
             rep.coverage.setdefault('rewind_events', {})[tag] = rewind_clause(rep, mod, tag, 'C07')
             rep.coverage.setdefault('cmp_outcomes', {})[tag] = cmp_spec(rep, mod, 'C07')
+            if target is None:
+                lookup_clause(rep, mod, tier)
     rep.coverage.update({
         'rule': 'on every abstract path through the overshoot branch: cursor after the rewind == cursor at the head of the iteration that read the name; '
                 'level flags == EXPECTING_FIELD; current_name not stored in that iteration; the step returns false',
         'trusted_base': ['clang-14 IR', 'engine/absint*.py'],
         'explanation': 'decides the rewind clause only (a failed lookup never loses or corrupts the next field); found-iff-present is value-level',
     })
-    rep.assumptions += ['the overshoot branch is recognised semantically as the store that moves the cursor backwards']
+    rep.assumptions += ['the overshoot branch is recognised semantically as the store that moves the cursor backwards',
+                        'found-iff-present / never-loses-later-fields: decided on the extracted machine for documents up to the stated bound; names are '
+                        'abstracted to their order (the byte-level comparison is the CMP-SPEC clause); the _ensure variants and binson_parser_field '
+                        '(strlen front end) are not covered']
+
+
+def lookup_clause(rep, mod, tier):
+    """found iff present, and a failed lookup passes only smaller names: the extracted cursor machine (props/c06.py) with the lookup
+    function and a comparison oracle, against a reference cursor, for every document up to the bound and every call sequence that
+    mixes next / enter / leave / get_raw / lookups of present and absent names"""
+    from props import c06
+    bounds = [(5, 3, ('integer', 'string'))] if tier == 'quick' else [(6, 3, ('integer', 'string')), (5, 3, ('integer', 'string', 'boolean', 'double', 'bytes'))]
+    bad, cov = c06.analyse(mod, tier, prop='C07', lookups=True, bounds=bounds)
+    rep.coverage['lookup_machine'] = {k: cov[k] for k in ('documents', 'product_states', 'calls_compared', 'bound')}
+    rep.coverage['lookup_function_summary'] = cov['wrappers'].get(c06.LOOKUP)
+    for api in ['field'] + sorted(c06.NAV):
+        for what in ('error', 'result', 'depth', 'type', 'position'):
+            hit = bad.get((what, api))
+            if hit is None:
+                rep.ob(True, 'lookup-machine:%s:%s' % (api, what), '', sample={'call': api, 'compared': what})
+            else:
+                msg, doc, md, seq = hit
+                rep.ob(False, 'lookup-machine:%s:%s' % (api, what),
+                       'C07 LOOKUP %s: %s - document %s (max_depth %d) after the calls %s' % (api, msg, doc, md, ' '.join(seq)),
+                       'document: %s\ncall sequence: %s' % (doc, ' -> '.join(seq)))
 
 
 # ------------------------------------------------------------------------------------------------------------------
